@@ -4,17 +4,51 @@
 use super::*;
 
 // ======================================================================== C01: constant detection
+fn is_constant_case<const N: usize>() -> bool {
+    // a block that is constant except (possibly) at one arbitrary position
+    let a: i32 = kani::any();
+    let b: i32 = kani::any();
+    let j: usize = kani::any();
+    kani::assume(j < N);
+    let mut s = [a; N];
+    s[j] = b;
+    let got = is_constant(&s);
+    assert!(got == (N == 1 || a == b));
+    !got && j + 1 == N
+}
+
 //@ prop: C01
 //@ also: C09
 //@ drives: arrayutils::is_constant::<i32> (the test behind the CONSTANT subframe in coding::encode_subframe)
-//@ bound: every slice of 0..=34 arbitrary i32 samples (two 16-sample chunks plus a tail of 1..2, so any chunked rewrite has full chunks, a boundary and a remainder inside the bound); the length is symbolic
-//@ asserts: true iff every sample equals the first one - a CONSTANT subframe stores one value, so a `true` for a block with a differing sample anywhere (in particular in a trailing partial chunk, or right after a chunk boundary) is a lossy encoding
+//@ bound: blocks of 1, 2, 16, 17, 18, 33 and 40 samples (concrete per path: below, at and above one and two 16-sample chunks, so a chunked rewrite has full chunks, a boundary and a remainder inside the bound) that are constant except at ONE arbitrary position holding an arbitrary value; plus (c01_is_constant_small) every block of up to 6 arbitrary samples
+//@ asserts: true iff every sample equals the first one - a CONSTANT subframe stores one value, so `true` for a block with a differing sample anywhere (in particular in a trailing partial chunk, or right after a chunk boundary) is a lossy encoding
 #[kani::proof]
-#[kani::unwind(36)]
+#[kani::unwind(42)]
 fn c01_is_constant_exact() {
-    let a: [i32; 34] = kani::any();
+    let sel: u8 = kani::any();
+    let c = match sel {
+        0 => is_constant_case::<1>(),
+        1 => is_constant_case::<2>(),
+        2 => is_constant_case::<16>(),
+        3 => is_constant_case::<17>(),
+        4 => is_constant_case::<18>(),
+        5 => is_constant_case::<33>(),
+        _ => is_constant_case::<40>(),
+    };
+    kani::cover!(c && sel == 5);
+}
+
+//@ prop: C01
+//@ also: C09
+//@ drives: arrayutils::is_constant::<i32>
+//@ bound: every slice of 0..=6 arbitrary i32 samples (symbolic length)
+//@ asserts: true iff all samples are equal
+#[kani::proof]
+#[kani::unwind(8)]
+fn c01_is_constant_small() {
+    let a: [i32; 6] = kani::any();
     let n: usize = kani::any();
-    kani::assume(n <= 34);
+    kani::assume(n <= 6);
     let got = is_constant(&a[..n]);
     let mut all_equal = true;
     let mut t = 1;
@@ -25,8 +59,8 @@ fn c01_is_constant_exact() {
         t += 1;
     }
     assert!(got == all_equal);
-    kani::cover!(n == 33 && got);
-    kani::cover!(n == 18 && !got && a[17] != a[0] && a[16] == a[0]);
+    kani::cover!(n == 6 && got);
+    kani::cover!(n == 5 && !got);
 }
 
 // ======================================================================== C10: reusable SIMD vectors
